@@ -109,7 +109,7 @@ impl History {
 
 
 fn base_cfg(rng: &mut Rng, c: &mut Cfg) {
-    c.insert("stick".into(), *rng.pick(&[0i64, 30, 60, 85]));
+    c.insert("stick".into(), *rng.pick(&[0i64, 30, 60, 85, 97]));
     c.insert("threads".into(), rng.range(2, 4));
     c.insert("iters".into(), rng.range(1, 3));
     c.insert("p_budget".into(), *rng.pick(&[0i64, 30, 60]));
